@@ -133,7 +133,9 @@ CLAIMED = {
                  'the start node; exhaustion gives default iff opted in else the recurrent error; a Recurrent result never unlocks '
                  'consumers; re-execution needs a hide (with C04); a restart forgets the decisions of the switches it invalidates, '
                  'their consumers wait for the new decision, and the DAG of an iteration consists of scope nodes the destination '
-                 'needs through ordinary edges (cases and one-of candidates run lazily; repo fix 12d4978) (C11_*). Partial: '
+                 'needs through ordinary edges (cases and one-of candidates run lazily; repo fix 12d4978); a restart only marks '
+                 'the nodes, a DAG that starts hides exactly its marked nodes, nodes nobody needs again keep their results (35c5865); '
+                 'a Recurrent result starts the loop only if it is not running (32b070f) (C11_*). Partial: '
                  'consumers-see-final-only under all schedules is tied and monitored (private subgraphs; switches and one-ofs '
                  'inside the subgraph are inside the monitored fragment).', '§6 C11'),
     'C12': ('Lean 4 proof of the retry loop specification + lifting lemmas into the engine model; exhaustive-grid correspondence',
@@ -206,7 +208,9 @@ CLAIMED = {
                  'just stored (C19_*). Switch / plain pipelines, all schedules: every value handed to the store in any execution is the '
                  'node\'s final dataflow value — the one its consumers receive — never a marker or an exception object '
                  '(C19_switch_saved_value_is_final, C19_switch_saves_agree); exactly-once over a whole run is tied, not a theorem. '
-                 'Recurrent re-iterations re-save inner nodes: listed finding.', '§6 C19'),
+                 'Recurrent re-iterations re-save inner nodes: listed finding. A save still suspended when chart.run ends is '
+                 'cancelled with its node task (the result is stored before the save is awaited): listed finding save_cut_off, '
+                 'excused only at that call site.', '§6 C19'),
 }
 
 ALL = [f'C{i:02d}' for i in range(1, 21)]
